@@ -799,13 +799,15 @@ def run(ck, only=None):
     # ---------------- 2c. validate() and export(cert_block=...): foreign signing key refused; override of the same length = the other block's container
     sv = ck.stream("validate_override", "(a) a SecureBinary31 whose signature provider holds ANOTHER key than the certificate block names: export() must raise an SPSDK error "
                    "(model: validateSb); (b) export(cert_block=b) with b = the export of a second certificate block of the same length (same keys, other ISK user data) or "
-                   "b = b'' / None: real bytes vs model exportOv, ROM model accepts and returns the commands; (c) an override of another length: implementation vs model "
-                   "only (image_total_length keeps the object's own block length); non-trivial = distinct (container, case)")
+                   "b = b'' / None: real bytes vs model exportOv, ROM model accepts and returns the commands; (c) `otherlen`: b = a VALID block of another length (other "
+                   "ISK user-data length): same oracle -- fails on the current tree, open finding C05-override-length (image_total_length keeps the object's own block "
+                   "length; theorem export_override_other_length_refused); (d) `longer`: the own block followed by zero bytes: implementation vs model only; "
+                   "non-trivial = distinct (container, case)")
     for _ in range(ck.budget(14, 150)):
         cmds = gen_stream(rng, None, ncmds=rng.choice([0, 1, 3]))
         spec = gen_spec(rng, ops=gen_ops(rng, cmds, 1))
-        case = rng.choice(["foreign", "same", "same", "empty", "longer"])
-        if case == "same":
+        case = rng.choice(["foreign", "same", "same", "empty", "longer", "otherlen"])
+        if case in ("same", "otherlen"):
             spec.update(isk_curve=spec["isk_curve"] or spec["root_curve"], user_data=hexs(rng.randbytes(rng.choice([4, 16, 36]))))
         inp = (spec, case)
         sv.note(inp, cls=case)
@@ -829,6 +831,13 @@ def run(ck, only=None):
             if b2[0] != "ok":
                 continue
             ov = b2[1][1]
+        elif case == "otherlen":
+            # a VALID certificate block of another length: same keys, ISK user data of another length
+            ul = len(bytes.fromhex(spec["user_data"]))
+            b2 = pyres(build_real, dict(spec, user_data=hexs(rng.randbytes(rng.choice([x for x in (4, 8, 16, 36, 40) if x != ul])))))
+            if b2[0] != "ok":
+                continue
+            ov = b2[1][1]
         elif case == "empty":
             ov = b""
         elif case == "longer":
@@ -836,8 +845,8 @@ def run(ck, only=None):
         res = pyres(lambda: sb.export(cert_block=ov) if ov is not None else sb.export())
         if case == "foreign":
             sv.expect(res[0] == "E:spsdk", inp, "export() with a signature provider whose key is not the one the certificate block names is not refused", res[0], "E:spsdk")
-        elif case in ("same", "empty"):
-            if not sv.expect(res[0] == "ok", inp, "export(cert_block=<block of the same length>) of a well-formed container raises", res):
+        elif case in ("same", "empty", "otherlen"):
+            if not sv.expect(res[0] == "ok", inp, "export(cert_block=<valid certificate block>) of a well-formed container raises", res):
                 continue
         total = 60 + hl + len(cert) + 2 * hl
         if drv is not None:
@@ -853,9 +862,13 @@ def run(ck, only=None):
                 sig = b"\x00"
             m = drv.ask(f"expfull {signer.hex()} {prov.hex()} {hexs(sig)} {'-' if ov is None else 'empty' if ov == b'' else ov.hex()}") if a == "ok" else a
             sv.compare(inp, "ok:" + res[1].hex() if res[0] == "ok" else res[0], m, f"validate()/export(cert_block=...) [{case}]: implementation vs model")
-            if case in ("same", "empty") and res[0] == "ok":
+            if case in ("same", "empty", "otherlen") and res[0] == "ok":
                 st_, rom = rom_query(drv, sv, inp, rom_line(dict(spec, ts=eff_ts), res[1]))
-                if st_ != "bad" and sv.expect(st_ == "ok", inp, "the ROM model refuses the container exported with a certificate block override of the same length", f"rej:{rom}", "accepted"):
+                # open finding C05-override-length: predicate on the INPUT only (the override is a valid block whose length differs from the object's own)
+                fnd = "C05-override-length" if case == "otherlen" and ov is not None and len(ov) != len(cert) else None
+                if fnd:
+                    total = 60 + hl + len(ov) + 2 * hl
+                if st_ != "bad" and sv.expect(st_ == "ok", inp, "the ROM model refuses the container exported with a valid certificate block override", f"rej:{rom}", "accepted", finding=fnd):
                     sv.expect(rom["cmds"] == [" ".join(c) for c in cmds], inp, "commands decoded from the override container differ from the commands supplied", rom["cmds"][:6])
                     sv.expect(all(ecdsa_ok(*o) for o in rom["obs"]), inp, "a signature of the override container does not verify (ECDSA, cryptography)")
                     sv.expect(res[1][60 + hl:total - 2 * hl] == (ov or cert), inp, "the certificate block of the file is not the override")
